@@ -225,7 +225,7 @@ def run_point(prog, entry: tuple, pt: dict, n_stmts: int = 2) -> dict:
         ref = refdec.decode(it.schema, [f for f in frames if isinstance(f, Msg)])
         decoded = len([x for x in ref.items if x[0] != "ns"])
         want_items = P.expected_items(_specs(quads, n_stmts), 0)
-        triples_stream_for_quads = quads and ref.options is not None and ref.options.get("physical_type") == 1
+        triples_stream_for_quads = quads and ref.options is not None and ref.options.get("physical_type") == 1 and int(pt.get("lt") or 0) % 10 == 3
         if triples_stream_for_quads:
             # documented behaviour of guess_stream: a GRAPHS-based logical type requested for quads/a Dataset selects a
             # TripleStream ("RDF graph stream": a stream of unnamed graphs) - graph names are not part of that stream
